@@ -14,7 +14,7 @@ Inductive rval :=
 | RTok (v : val)            (* a lock token: stored raw, not a serializer encoding (reads as 'no value') *)
 | RBits (b : list bool)     (* a string used through BITFIELD, most significant bit first *)
 | RSet (l : list string)    (* duplicate-free, sorted by the harness before comparison *)
-| RZSet (l : list Z).       (* members whose score is the member itself (the sliding window) *)
+| RZSet (l : list Z).       (* the scores of a sorted set whose members are unique per call (the sliding window) *)
 Definition entry := (rval * option Z)%type.          (* value, expiry instant *)
 Definition server := key -> option entry.
 
@@ -144,7 +144,7 @@ Definition script_incr_expire (s : server) now k (by_ px : Z) : server * reply :
   | Int n => if n =? 1 then (fst (c_pexpire s1 now k px), Int n) else (s1, Int n)
   | _ => (s1, r)
   end.
-(* ZREMRANGEBYSCORE k 0 (start ; ZCOUNT k start end ; if count < max: ZADD k end end, PEXPIRE when px > 0 *)
+(* ZREMRANGEBYSCORE k 0 (start ; ZCOUNT k start end ; if count < max: ZADD k end <unique member>, PEXPIRE when px > 0 *)
 Definition zset_of (s : server) now k : option (list Z * option Z) :=
   match look s now k with None => Some ([], None) | Some (RZSet l, d) => Some (l, d) | Some _ => None end.
 Definition script_incr_slice (s : server) now k (start end_ maxv px : Z) : server * reply :=
@@ -160,7 +160,7 @@ Definition script_incr_slice (s : server) now k (start end_ maxv px : Z) : serve
       let d1 := match l1 with [] => None | _ => d end in
       let cnt := Z.of_nat (length (filter (fun x => (start <=? x) && (x <=? end_)) l1)) in
       if cnt <? maxv then
-        let l2 := if existsb (Z.eqb end_) l1 then l1 else l1 ++ [end_] in
+        let l2 := l1 ++ [end_] in
         let s2 := supd s1 k (Some (RZSet l2, d1)) in
         ((if 0 <? px then fst (c_pexpire s2 now k px) else s2), Int (cnt + 1))
       else (s1, Int cnt)
